@@ -175,6 +175,8 @@ def exec_case(case, log, stats):
             log.add(tid, idx, op["op"], op.get("cid") or op["entry"]["id"], out)
             spans.append((tid, op, start, end))
             stats.inc("define_ops" if op["op"] == "define" else "use_ops")
+            if "escape:RecursionError" in (out[0], list(reference[tid][idx])[0]):
+                continue
             if out != list(reference[tid][idx]):
                 return {
                     "invariant": "concurrent_use_differs_from_alone",
